@@ -210,6 +210,25 @@ def pad_facts(t, w):
     ]
 
 
+def _known_nonneg(st, t):
+    """``t >= 0`` is literally a conjunct of the path condition (keeps pad terms free of the sign case split)."""
+    def conj(a):
+        if z3.is_and(a):
+            for c in a.children():
+                yield from conj(c)
+        else:
+            yield a
+
+    zero = z3.IntVal(0)
+    for a in getattr(st, "pc", ()):
+        for c in conj(a):
+            if z3.is_ge(c) and c.arg(0).eq(t) and c.arg(1).eq(zero):
+                return True
+            if z3.is_le(c) and c.arg(0).eq(zero) and c.arg(1).eq(t):
+                return True
+    return False
+
+
 def pad_int(st, t, width):
     """format(n, '0{width}d') for a z3 Int term: uninterpreted ``py_pad`` + ground facts.
 
@@ -218,6 +237,8 @@ def pad_int(st, t, width):
         return int_to_str(t)
     for f in pad_facts(t, width):
         axiom(f)
+    if _known_nonneg(st, t):
+        return PAD(t, z3.IntVal(width))
     neg = z3.Concat(z3.StringVal("-"), PAD(-t, z3.IntVal(max(width - 1, 1))))
     if width > 1:
         for f in pad_facts(-t, width - 1):
@@ -345,6 +366,17 @@ def strip_term(t, flavor="str"):
     return r
 
 
+def lstrip_term(t, c):
+    """s.lstrip(c) for a single character c: uninterpreted function of s with its defining ground facts."""
+    f = z3.Function(f"py_lstrip_{ord(c):x}", z3.StringSort(), z3.StringSort())
+    g = z3.Function(f"py_lstrip_{ord(c):x}_pre", z3.StringSort(), z3.StringSort())
+    r, a = f(t), g(t)
+    axiom(t == z3.Concat(a, r))
+    axiom(z3.InRe(a, z3.Star(z3.Re(c))))
+    axiom(z3.Not(z3.PrefixOf(z3.StringVal(c), r)))
+    return r
+
+
 def strip_unique_instance(s, a, r, b):
     """Uniqueness of the strip decomposition (a true fact about str.strip, trusted builtin model)."""
     return z3.Implies(z3.And(s == z3.Concat(a, r, b), z3.InRe(a, z3.Star(RE_WS)), z3.InRe(b, z3.Star(RE_WS)),
@@ -358,29 +390,50 @@ def model_strip(ex, st, s):
     return SV("str", strip_term(s.t))
 
 
-def norm_index(i, n):
-    """Python slice index normalisation for z3 Int terms."""
+def norm_index(i, n, st=None):
+    """Python slice index normalisation for z3 Int terms (without the case split when the path condition
+    already bounds the index, see lia.py)."""
+    if st is not None:
+        from . import lia
+
+        pc = list(AXIOMS) + list(st.pc)
+        if lia.entails(pc, i >= 0):
+            if lia.entails(pc, i <= n):
+                return i
+            return z3.If(i > n, n, i)
     return z3.If(i < 0, z3.If(n + i < 0, 0, n + i), z3.If(i > n, n, i))
 
 
-def str_slice(s, lo, hi):
+def str_slice(s, lo, hi, st=None):
     if isinstance(s, str) and not is_sym(lo) and not is_sym(hi):
         return s[lo:hi]
     t = sstr(s)
     n = z3.Length(t)
+    pc = (list(AXIOMS) + list(st.pc)) if st is not None else None
+    if pc is not None:
+        from . import lia
+
+    def literal(k):
+        if pc is not None and lia.entails(pc, n >= k):
+            return z3.IntVal(k)
+        return z3.If(n < k, n, z3.IntVal(k))
+
     if lo is None:
         lo_t = z3.IntVal(0)
     elif isinstance(lo, int) and lo >= 0:
-        lo_t = z3.If(n < lo, n, z3.IntVal(lo))
+        lo_t = literal(lo)
     else:
-        lo_t = norm_index(lift(lo, "int"), n)
+        lo_t = norm_index(lift(lo, "int"), n, st)
     if hi is None:
         hi_t = n
     elif isinstance(hi, int) and hi >= 0:
-        hi_t = z3.If(n < hi, n, z3.IntVal(hi))
+        hi_t = literal(hi)
     else:
-        hi_t = norm_index(lift(hi, "int"), n)
-    ln = z3.If(hi_t - lo_t < 0, 0, hi_t - lo_t)
+        hi_t = norm_index(lift(hi, "int"), n, st)
+    if pc is not None and lia.entails(pc, hi_t >= lo_t):
+        ln = z3.simplify(hi_t - lo_t)
+    else:
+        ln = z3.If(hi_t - lo_t < 0, 0, hi_t - lo_t)
     return SV("str", z3.SubString(t, lo_t, ln))
 
 
@@ -1149,7 +1202,10 @@ def getitem(ex, st, ref, idx):
             it = lift(i, "int")
             for st2, ok in ex.branch(st1, _wrap_bool(z3.And(it >= -n, it < n))):
                 if ok:
-                    real = it if (isinstance(i, int) and i >= 0) else z3.If(it < 0, n + it, it)
+                    from . import lia
+
+                    nonneg = (isinstance(i, int) and i >= 0) or lia.entails(list(AXIOMS) + list(st2.pc), it >= 0)
+                    real = it if nonneg else z3.If(it < 0, n + it, it)
                     yield st2, SV("str", z3.SubString(t, real, 1), char=True)
                 else:
                     yield ex.raise_(st2, "IndexError")
@@ -1214,9 +1270,9 @@ def getslice(ex, st, ref, lo, hi, step):
                     if any(x is not None and natural_sort(x) not in ("int", "bool") for x in (l1, h1)):
                         yield ex.raise_(st2, "TypeError")
                     else:
-                        yield st2, str_slice(v, l1, h1)
+                        yield st2, str_slice(v, l1, h1, st2)
             return
-        yield st, str_slice(v, lo, hi)
+        yield st, str_slice(v, lo, hi, st)
         return
     if isinstance(v, Obj) and v.tuple_fields is not None:
         v = tuple(v.fields[k] for k in v.tuple_fields)
